@@ -417,7 +417,7 @@ def run(pid, tier, replay_file=None):
     if pid == "C08" and not replay_file:
         import docfamily as df
         from checks_doc import _kwsig
-        dstates, dinfo = df.stage1(tier)
+        dstates, dinfo = df.stage1(tier, pid="doc")
         if tier == "quick":
             dstates = [s for s in dstates if s.get("src") == "bfs"][::2] + [s for s in dstates if s.get("src") == "seed"] \
                       + [s for s in dstates if s.get("src") == "sim"][:800]
